@@ -24,10 +24,13 @@ open VaxisModel.Lemmas.Surface VaxisModel.Lemmas.Layout VaxisModel.Lemmas.Surfac
 /-- NewSurface's length and WriteCell's index are computed in `int`, the row guard is `>=`. -/
 theorem src_arith_exact : srcArith = exact := by decide
 
-/-- Every height guard of Text / RichText `findContainerSize` is `size.Height >= ctx.Max.Height`. -/
+/-- Every height guard of Text / RichText `findContainerSize` is `size.Height >= ctx.Max.Height`, and
+each of the four Draw functions allocates `vxfw.NewSurface(size.Width, size.Height, …)` with the size
+findContainerSize returned (the argument expressions are read from the source and evaluated by the
+model: `TextMode.sz`, `Layout.evalSz`). -/
 theorem src_guards_strict :
-    (∀ hard st, (textMode hard st).sizeStrict = true) ∧ (∀ hard, (richMode hard).sizeStrict = true) := by
-  refine ⟨fun hard st => ?_, fun hard => ?_⟩ <;> cases hard <;> rfl
+    (∀ hard st, (textMode hard st).sizeOK) ∧ (∀ hard, (richMode hard).sizeOK) := by
+  refine ⟨fun hard st => ?_, fun hard => ?_⟩ <;> cases hard <;> exact ⟨rfl, by simp only [textMode, richMode]; decide⟩
 
 open VaxisModel.Gen.SurfaceFacts in
 /-- The shape-fixed facts of vxfw.go, center.go and textfield.go the model transcribes (K/E = range
@@ -146,8 +149,10 @@ theorem facts_layout :
 
 open VaxisModel.Gen.SurfaceFacts in
 /-- The size arguments of every `vxfw.NewSurface` call of a widget, as terms.  The model *evaluates*
-the ones of Center, TextField and Dynamic (`newSurfaceFor`: `Lemmas.Surface.surface_center`, `…_field`,
-`…_dynamic`, `…_dynamic_cursor`); Text / RichText allocate what findContainerSize returned. -/
+all of them: Center, TextField and Dynamic through `newSurfaceFor` (`Lemmas.Surface.surface_center`,
+`…_field`, `…_dynamic`, `…_dynamic_cursor`), the four Text / RichText functions through `TextMode.sz`
+(`Layout.drawText` allocates `evalSz … m.sz`; `src_guards_strict` shows they are `size.Width, size.Height`,
+which `size_le_max` needs: `NewSurface(size.Width+1, …)` in the source breaks that theorem, not only this pin). -/
 theorem facts_surface_sizes :
     surfaceSizes = [
       ("center.Center.Draw", .maxW, .maxH),
@@ -172,7 +177,7 @@ theorem facts_ellipsis_cond :
 
 /-- Text / RichText (either wrap mode), any scanned lines, any constraint: the surface is no
 larger than the maximum and Draw does not panic. -/
-theorem size_le_max_text (m : TextMode) (hm : m.sizeStrict = true) (c : Ctx) (lines : List (List Cell)) :
+theorem size_le_max_text (m : TextMode) (hm : m.sizeOK) (c : Ctx) (lines : List (List Cell)) :
     ∃ s, drawText exact m c lines = .ok s ∧ s.w ≤ c.maxW ∧ s.h ≤ c.maxH ∧
       s.buf.length = s.w.toNat * s.h.toNat :=
   text_size_le m hm c lines
@@ -188,7 +193,7 @@ Dynamic draws: Draw returns a surface no larger than the maximum — or stops wi
 `panic("… bounded constraints")`, and that exactly when some Center / Button / Dynamic of the tree
 receives an unbounded constraint (`accepts w c = false`, characterised below).  No other panic. -/
 theorem size_le_max (tm : Bool → Nat → TextMode) (rm : Bool → TextMode)
-    (htm : ∀ hard st, (tm hard st).sizeStrict = true) (hrm : ∀ hard, (rm hard).sizeStrict = true)
+    (htm : ∀ hard st, (tm hard st).sizeOK) (hrm : ∀ hard, (rm hard).sizeOK)
     (w : Widget) (c : Ctx) :
     (accepts w c = true ∧ ∃ s, drawWith exact tm rm w c = .ok s ∧ s.w ≤ c.maxW ∧ s.h ≤ c.maxH) ∨
     (accepts w c = false ∧ drawWith exact tm rm w c = .error .explicit) :=
